@@ -214,12 +214,20 @@ def write_replay(prop, name, payload):
 
 
 # ----------------------------------------------------------------------------- source-level struct layout (field name -> MIR field index)
-def struct_fields(relpath, name):
-    src = open(os.path.join(REPO, relpath), errors='replace').read()
+ROLES_FILE = os.path.join(VERIF, 'lib', 'roles.json')
+_roles = None
+
+
+def norm_type(t):
+    t = re.sub(r'\s+', '', t)
+    return re.sub(r'\b(?:\w+::)+', '', t)
+
+
+def _parse_struct(src, name):
     src = re.sub(r'//[^\n]*', '', src)
     m = re.search(r'\bstruct\s+' + re.escape(name) + r'\b[^{;(]*\{', src)
     if not m:
-        raise NotFound(f'struct {name} in {relpath}')
+        return None
     i = m.end()
     d, j = 1, i
     while j < len(src) and d:
@@ -244,12 +252,70 @@ def struct_fields(relpath, name):
         else:
             cur += ch
     out.append(cur)
-    names = []
+    fields = []
     for f in out:
-        mm = re.match(r'\s*(?:pub(?:\([^)]*\))?\s+)?(\w+)\s*:', f)
+        mm = re.match(r'\s*(?:pub(?:\([^)]*\))?\s+)?(\w+)\s*:\s*(.*)', f, re.S)
         if mm:
-            names.append(mm.group(1))
-    return names
+            fields.append((mm.group(1), norm_type(mm.group(2))))
+    return fields
+
+
+class Fields(list):
+    """field names of a struct in declaration (= MIR) order.  `index(name)` also resolves the *role* a name had
+    at the pinned commit (lib/roles.json: struct -> name -> type): when a private field has been renamed, the one
+    field of the current struct that has the role's type is taken, so renaming/reordering fields does not change
+    what an obligation binds or reads."""
+
+    def __init__(self, pairs, struct, relpath):
+        super().__init__(n for n, _ in pairs)
+        self.types = [t for _, t in pairs]
+        self.struct, self.relpath = struct, relpath
+
+    def _role(self, name):
+        global _roles
+        if _roles is None:
+            try:
+                _roles = json.load(open(ROLES_FILE))
+            except OSError:
+                _roles = {}
+        ent = _roles.get(f'{self.relpath}::{self.struct}') or {}
+        ty = ent.get(name)
+        if ty is None:
+            return None
+        taken = set(ent) & set(self)            # fields that kept their pinned name keep their role
+        hits = [i for i, t in enumerate(self.types) if t == ty and list.__getitem__(self, i) not in taken]
+        return hits[0] if len(hits) == 1 else None
+
+    def index(self, name, *a):
+        if list.__contains__(self, name):
+            return list.index(self, name)
+        i = self._role(name)
+        if i is None:
+            raise NotFound(f'field {name} of {self.struct} ({self.relpath}): not present and no unique field of its pinned type')
+        return i
+
+    def __contains__(self, name):
+        return list.__contains__(self, name) or self._role(name) is not None
+
+    def by_type(self, pattern):
+        hits = [i for i, t in enumerate(self.types) if re.search(pattern, t)]
+        if len(hits) != 1:
+            raise NotFound(f'field of type /{pattern}/ in {self.struct}: {len(hits)} candidates')
+        return hits[0]
+
+
+def struct_fields(relpath, name):
+    cands = [relpath] + sorted(os.path.relpath(f, REPO) for f in
+                               __import__('glob').glob(os.path.join(REPO, os.path.dirname(relpath), '**', '*.rs'), recursive=True))
+    for rp in cands:
+        try:
+            src = open(os.path.join(REPO, rp), errors='replace').read()
+        except OSError:
+            continue
+        pairs = _parse_struct(src, name)
+        if pairs is not None:
+            return Fields(pairs, name, relpath)
+    raise NotFound(f'struct {name} in {relpath}')
 
 
 def struct_sym(name, ty, fields, values):
